@@ -400,7 +400,12 @@ func randomGraph(t *rapid.T, atoms []*m.Atom, edges []string, maxNodes int) *m.G
 	n := rapid.IntRange(1, maxNodes).Draw(t, "nodes")
 	g := &m.Graph{}
 	for i := 0; i < n; i++ {
-		switch rapid.IntRange(0, 3).Draw(t, "class") {
+		switch rapid.IntRange(0, 4).Draw(t, "class") {
+		case 4:
+			// a node without any class (reached through edges only); one literal keeps it a node of the
+			// flattened document rather than a dangling reference
+			u := g.Add()
+			g.Nodes[u].AddVal(m.NS+"note", m.LV(m.S("untyped")))
 		case 0:
 			g.Add(classOther)
 		case 1:
